@@ -9,14 +9,29 @@ Traces == ndJsonDeserialize("cases.ndjson")
 VARIABLE i
 TInit == i = 1
 TNext == i < Len(Traces) /\ i' = i + 1
-\* a recorded load: [id, entry, bypath, opened, closed, outcome, slow, fd_leak]
-\* it must be a terminal state of the life-cycle machine that satisfies the safety properties
+\* a recorded load: [id, entry, bypath, opened, closed, outcome, slow, fd_leak,
+\*                   nbytes, mem_allow_kib, mem_attempts, aux_open, ms]
+\* it must be a terminal state of the life-cycle machine that satisfies the safety properties.
+\*
+\* Memory in proportion to the input: the load ran with the address space it could still obtain
+\* limited to mem_allow_kib; mem_attempts counts the MemoryErrors raised anywhere during the load
+\* (also those a loader caught and turned into something else), i.e. the requests that did not fit.
+\* The allowance the property is read with is MemBaseKiB + MemPerByteKiB * nbytes: half a GiB
+\* plus a KiB per byte of input, orders of magnitude above what a parser of kilobyte inputs needs.
+MemBaseKiB == 524288
+MemPerByteKiB == 1
+MemBoundKiB(n) == MemBaseKiB + MemPerByteKiB * n
+\* Time in proportion to the input: 10 s + 1 ms per byte of CPU time (ms = measured CPU milliseconds)
+TimeBoundMs(n) == 10000 + n
 TClause(t) ==
-    IF t.outcome \notin {"return", "exception"} THEN "outcome_not_return_or_ordinary_exception"
-    ELSE IF t.slow THEN "time_bound_exceeded"
+    IF t.mem_allow_kib < MemBoundKiB(t.nbytes) THEN "machinery_allowance_below_bound"
+    ELSE IF t.outcome = "memory" \/ t.mem_attempts > 0 THEN "memory_out_of_proportion_to_input"
+    ELSE IF t.outcome \notin {"return", "exception"} THEN "outcome_not_return_or_ordinary_exception"
+    ELSE IF t.slow \/ t.ms > TimeBoundMs(t.nbytes) THEN "time_bound_exceeded"
     ELSE IF t.opened # t.bypath THEN "opened_iff_given_a_path"
     ELSE IF t.opened /\ ~t.closed THEN "handle_left_open"
     ELSE IF t.fd_leak THEN "file_descriptor_leak"
+    ELSE IF t.aux_open > 0 THEN "auxiliary_file_left_open"
     ELSE "ok"
 TReport == LET t == Traces[i]  cl == TClause(t) IN
            IF cl # "ok" THEN PrintT(<<"REJECT", t.id, cl>>) ELSE TRUE
